@@ -42,6 +42,7 @@ struct RLimit {
 }
 extern "C" {
     fn setrlimit(resource: i32, rlim: *const RLimit) -> i32;
+    fn clock() -> i64; // processor time used so far, in microseconds (CLOCKS_PER_SEC = 1_000_000)
 }
 const RLIMIT_AS: i32 = 9; // linux
 const RLIMIT_CORE: i32 = 4;
@@ -210,6 +211,12 @@ fn worker(file: &str, preset: &str) {
         let cpu: u64 = std::env::var("C01_CPU_S").ok().and_then(|s| s.parse().ok()).unwrap_or(20);
         let t = RLimit { cur: cpu, max: cpu + 2 };
         setrlimit(RLIMIT_CPU, &t);
+        if preset == "all" {
+            // `cpu` is the budget of ONE preset: the soft limit is moved forward before each preset (below),
+            // the hard limit covers the four of them
+            let t = RLimit { cur: cpu, max: 4 * cpu + 8 };
+            setrlimit(RLIMIT_CPU, &t);
+        }
     }
     std::panic::set_hook(Box::new(|info| {
         let loc = info.location().map(|l| format!("{}:{}", l.file().rsplit('/').next().unwrap_or(""), l.line())).unwrap_or_default();
@@ -225,7 +232,16 @@ fn worker(file: &str, preset: &str) {
     let raw = std::fs::read(file).expect("worker: read input");
     let presets: Vec<String> = if preset == "all" { vec!["strict".into(), "default".into(), "tolerant".into(), "skip".into()] } else { vec![preset.to_string()] };
     let is_direct = raw.starts_with(b"{\"direct\"");
+    let all = preset == "all";
     for p in presets {
+        if all {
+            unsafe {
+                let cpu: u64 = std::env::var("C01_CPU_S").ok().and_then(|s| s.parse().ok()).unwrap_or(20);
+                let used = (clock().max(0) as u64) / 1_000_000;
+                let t = RLimit { cur: used + cpu + 1, max: 4 * cpu + 8 };
+                setrlimit(RLIMIT_CPU, &t);
+            }
+        }
         let b = raw.clone();
         let p2 = p.clone();
         let h = std::thread::Builder::new()
@@ -263,7 +279,7 @@ pub struct Obs {
 fn run_child(exe: &Path, file: &Path, preset: &str, cpu_s: u64) -> Vec<(String, Obs)> {
     let t0 = Instant::now();
     // the worker limits its own CPU time (robust against a loaded machine); the wall limit only catches sleeping hangs
-    let wall = Duration::from_secs(cpu_s * 6);
+    let wall = Duration::from_secs(cpu_s * if preset == "all" { 24 } else { 6 });
     let mut child = Command::new(exe)
         .args(["c01", "--worker", file.to_str().unwrap(), preset])
         .env("C01_CPU_S", cpu_s.to_string())
@@ -388,11 +404,17 @@ pub fn run(ctx: &Ctx) {
     let n = cases.len();
     let results: Arc<Mutex<Vec<Vec<(String, Obs)>>>> = Arc::new(Mutex::new(vec![vec![]; n]));
     let next = Arc::new(Mutex::new(0usize));
+    // circuit breaker: once a class has BREAKER failing cases the defect is established (with replays);
+    // the remaining cases of that class are skipped so that a systematic hang cannot exhaust the time budget
+    const BREAKER: u32 = 8;
+    let class_fails: Arc<Mutex<std::collections::HashMap<String, u32>>> = Arc::new(Mutex::new(Default::default()));
+    let skipped = Arc::new(Mutex::new(0u64));
     let cases = Arc::new(cases);
     let nthreads: usize = std::env::var("C01_JOBS").ok().and_then(|s| s.parse().ok()).unwrap_or(12);
     let mut hs = vec![];
     for _ in 0..nthreads {
         let (cases, results, next, exe, tmp) = (cases.clone(), results.clone(), next.clone(), exe.clone(), tmp.clone());
+        let (class_fails, skipped) = (class_fails.clone(), skipped.clone());
         hs.push(std::thread::spawn(move || loop {
             let i = {
                 let mut g = next.lock().unwrap();
@@ -404,6 +426,10 @@ pub fn run(ctx: &Ctx) {
                 break;
             }
             let c = &cases[i];
+            if class_fails.lock().unwrap().get(&c.class).copied().unwrap_or(0) >= BREAKER {
+                *skipped.lock().unwrap() += 1;
+                continue;
+            }
             let bytes = gen::build(&c.spec);
             // CPU budget per preset: `wall_s` (20 s) for inputs up to 1 MiB, plus 40 s per further MiB (DESIGN 5a:
             // an order of magnitude above what the linear bounds predict for a debug build)
@@ -414,7 +440,7 @@ pub fn run(ctx: &Ctx) {
             let mut obs: Vec<(String, Obs)> = vec![];
             let distinct: Vec<&str> = c.presets.iter().copied().filter(|p| *p != "lenient").collect();
             if distinct.len() == 4 {
-                obs = run_child(&exe, &f, "all", per_preset * 4);
+                obs = run_child(&exe, &f, "all", per_preset);
             }
             for p in &distinct {
                 if !obs.iter().any(|(q, _)| q == p) {
@@ -430,6 +456,9 @@ pub fn run(ctx: &Ctx) {
                 }
             }
             let _ = std::fs::remove_file(&f);
+            if obs.iter().any(|(_, o)| o.kind == "crash" || o.kind == "panic") {
+                *class_fails.lock().unwrap().entry(c.class.clone()).or_insert(0) += 1;
+            }
             results.lock().unwrap()[i] = obs;
         }));
     }
@@ -456,5 +485,6 @@ pub fn run(ctx: &Ctx) {
     }
     out.extra.insert("slowest_case_ms".into(), json!(slow as u64));
     out.extra.insert("wall_limit_s".into(), json!(wall_s));
+    out.extra.insert("skipped_after_class_breaker".into(), json!(*skipped.lock().unwrap()));
     out.finish("robust");
 }
